@@ -306,6 +306,34 @@ def Play.Valid {σ μ : Type} {c : Carrier} (W : Wire σ μ) (conv : List (Excha
     (∀ p ∈ pre, p.1.Clean ∧ ∀ d, p.1 ≠ .message d) ∧ (∀ s ∈ msgsOf conv, SseDecodes dec W s)
       ∧ chunks.flatten = sseText W pre conv crlf
 
+/-! ## several transport instances in one process -/
+
+section instances
+variable {S E O : Type}
+
+/-- a machine: one input, new state and outputs -/
+abbrev Machine (S E O : Type) := S → E → S × List O
+
+def runM (step : Machine S E O) : S → List E → S × List O
+  | st, [] => (st, [])
+  | st, e :: es =>
+    let r := step st e
+    let r' := runM step r.1 es
+    (r'.1, r.2 ++ r'.2)
+
+/-- several instances of one machine alive at once: every input is addressed to one instance (its
+index), only that instance's state moves, every output is tagged with the instance it comes from -/
+def runTagged (step : Machine S E O) : (Nat → S) → List (Nat × E) → (Nat → S) × List (Nat × O)
+  | sts, [] => (sts, [])
+  | sts, (i, e) :: es =>
+    let r := step (sts i) e
+    let r' := runTagged step (fun j => if j = i then r.1 else sts j) es
+    (r'.1, r.2.map (fun o => (i, o)) ++ r'.2)
+
+def forInst {α : Type} (i : Nat) (l : List (Nat × α)) : List α := (l.filter (fun p => p.1 = i)).map (·.2)
+
+end instances
+
 /-! ## the library's real codec -/
 
 /-- Python `str(id)` -/
